@@ -21,6 +21,8 @@ func unpackWorld() {
 	envWriteFile("/w/d2/f", 0644, 100, "x")
 	envWriteFile("/w/victim", 0600, 100, "v")
 	envMkdir("/w/vd", 0700, 100)
+	envMkdir("/w/o", 0755, 100) // a directory next to dst whose name a one-byte segment can spell
+	envWriteFile("/w/o/f", 0644, 100, "o")
 	envSymlink("/w/ld", "d", 100)    // the destination may be named by way of a link (relative ...
 	envSymlink("/w/la", "/w/d", 100) // ... or absolute)
 	envChdir("/w")
@@ -226,6 +228,23 @@ func HarnessUnpackStep() {
 	verif.ObserveBool("ok", err == nil)
 	verif.Reach("step-done")
 	verif.Assert("C01-nothing-outside-dst-touched", envChangedOutside(unpackDstReal) == "")
+	// C04, whatever the destination already holds (the very link an entry names may be there, left
+	// by an earlier call that allow-listed it): a link entry whose target leaves dst - absolute or
+	// climbing out, judged from the link's own directory - makes a plain Unpack fail
+	for _, e := range entries {
+		if e.Typeflag == tar.TypeSymlink && e.Name != "" && e.Linkname != "" {
+			nm := e.Name
+			for len(nm) > 0 && nm[0] == '/' {
+				nm = nm[1:]
+			}
+			// (an absolute target is judged against the destination as the caller spelled it: only
+			// the plain spelling is used for those)
+			if (e.Linkname[0] != '/' || unpackDst == "/w/d") && !refHasPrefix(refLinkTarget("/w/d", nm, e.Linkname), []string{"w", "d"}) {
+				verif.Reach("escaping-link-entry")
+				verif.Assert("C04-escaping-link-entry-makes-unpack-fail", err != nil)
+			}
+		}
+	}
 	// inductive step for C04: from a state in which every link resolves inside dst, a further
 	// entry leaves it so (entries in the class of the open finding excluded)
 	// (a pre-state link with ".." after a name can only have been created through that class)
